@@ -270,11 +270,15 @@ func TestWorker(t *testing.T) {
 				}
 				reported[v.Finger] = true
 				f := Finding{Seed: seed, Oracle: v.Oracle, Finger: v.Finger, Detail: v.Detail, Size0: c.Size()}
+				if _, ok := known.match(v.Finger); ok {
+					// a listed finding: reported once by the driver, neither
+					// minimised nor written out again
+					f.Size1 = f.Size0
+					wo.Findings = append(wo.Findings, f)
+					continue
+				}
 				mc := c
 				budget := 25 * time.Second
-				if _, ok := known.match(v.Finger); ok {
-					budget = 2 * time.Second
-				}
 				mc, f.Runs = Shrink(t, c, v.Finger, budget, 1500)
 				f.Size1 = mc.Size()
 				mout := RunCase(t, mc, false)
